@@ -100,14 +100,17 @@ def segment_of(subs, season_name, daytype):
     return hits[0] if len(hits) == 1 else None
 
 
-def data_classes(kind):
-    from opendsm.eemeter import BillingReportingData, DailyReportingData
+def data_classes(kind, role="reporting"):
+    """the data class predict() accepts for its reporting_data argument: role 'reporting' or 'baseline'"""
+    from opendsm.eemeter import BillingBaselineData, BillingReportingData, DailyBaselineData, DailyReportingData
+    if role == "baseline":
+        return DailyBaselineData if kind == "daily" else BillingBaselineData
     return DailyReportingData if kind == "daily" else BillingReportingData
 
 
-def inject(kind, frame, tz):
-    """a reporting-data object whose .df is `frame` (columns season, weekday_weekend, temperature[, observed])"""
-    cls = data_classes(kind)
+def inject(kind, frame, tz, role="reporting"):
+    """a data object of the given role whose .df is `frame` (columns season, weekday_weekend, temperature[, observed])"""
+    cls = data_classes(kind, role)
     o = cls.__new__(cls)
     o._df = frame
     o.tz = frame.index.tz
